@@ -45,7 +45,7 @@ DIRECTED = [
     "<script><!--x--></script>", "<script>a<b&c</script>", "<script>a</b></script>", "<script>a</></script>", "<script>a</ ></script>", "<script>a</1></script>",
     "<script/>x</script>", "<script />x", "<script a=b>x</script>", "<script a='</script>'>x</script>", "<script>\n\n</script>\n<a>", "<script>x</script", "<script>x</script ",
     "<script>x</", "<script>x<", "<script>&amp;&#65;</script>&amp;", "<style>", "<style>x</style", "<STYLE>x</STYLE>", "<style>x</stylİ>", "<scrİpt>x</script>",
-    "<ſcript>x", "<script>x</script>y<script>z</script>", "<script>x</scripty></script>", "<script></script></script>", "<textarea>x</textarea>", "<title>x</title>",
+    "<ſcript>x", "<script>x</script>y<script>z</script>", "<script>x</scripty></script>", "<script></script></script>", "<textarea>x</textarea>", "<title>x</title>", "<textarea>a<b>&amp;</textarea>", "<title>a<b></title>", "<xmp><b></xmp>", "<plaintext><b>",
     # marked sections
     "<![", "<![CDATA[", "<![CDATA[x", "<![CDATA[x]]", "<![CDATA[x]]>", "<![CDATA[x] ]>", "<![CDATA[x]\n]\n>", "<![CDATA[]]>", "<![CDATA[x]>", "<![cdata[x]]>",
     "<![CDATA x]]>", "<![CDATA]]>", "<![CDATA", "<![CDATA[a]]>b]]>", "<![CDATA[a>b]]>", "<![if x]>", "<![if x]>y<![endif]>", "<![endif]>", "<![endif]", "<![endif",
